@@ -9,7 +9,8 @@ import (
 
 func init() {
 	register("C01", &propSpec{
-		run: runC01,
+		technique: "static analysis: SSA value flow (key normalisation on all data paths), CFG edge guards and must-pass ordering over the vhost trie and serveHTTP",
+		run:       runC01,
 		decided: "R1 the host key used to insert and to look up a site is case-folded and port-stripped by the same function on every data path; " +
 			"R2 the matched site's handler chain runs only when a site was found, the not-found branch always writes the site-not-found response (404, 421 for HTTP/2+) and runs no handler; " +
 			"R3 host lookup order: exact name before wildcard candidates, wildcard ladder ascending and cumulative with first hit returned, request host before fallback hosts and fallbacks only while nothing matched; " +
